@@ -136,4 +136,36 @@ end
 /-- `a` is `p` or lies below `p` -/
 def covers (p a : Addr) : Prop := ∃ q, a = p ++ q
 
+/-! ## definitions used in the statements of `Props/C06.lean` -/
+
+/-- what the report makes of one tuple under the identity-key modes -/
+def keyPairEntries (s : Bool) (c : Cfg) (p : Addr) (deep : Bool) : Pair → List Entry
+  | ⟨some (i, x), some (j, y)⟩ =>
+    if deep then diffBetween s c (p ++ [.idx j]) x y else [scalarEntry (p ++ [.idx i]) x y]
+  | ⟨some (i, x), none⟩ => [mkDel (p ++ [.idx i]) x]
+  | ⟨none, some (j, y)⟩ => [mkAdd (p ++ [.idx j]) y]
+  | ⟨none, none⟩ => []
+
+/-- what `_diff_synced_lists` makes of a matched pair / a lone left element -/
+def valuePairEntries (s : Bool) (c : Cfg) (p : Addr) : Pair → List Entry
+  | ⟨some (i, x), some (_, y)⟩ => diffBetween s c (p ++ [.idx i]) x y
+  | ⟨some (i, x), none⟩ => [mkDel (p ++ [.idx i]) x]
+  | _ => []
+
+/-- positional comparison: array mode `position` and AoH mode `position` (the defaults) or `dpos` -/
+def Positional (c : Cfg) : Prop := c.arr = .position ∧ (c.aoh = .position ∨ c.aoh = .dpos)
+
+instance (c : Cfg) : Decidable (Positional c) := by unfold Positional; exact inferInstance
+
+/-- no identity-key synchronisation -/
+def NoKeySync (c : Cfg) : Prop := c.aoh ≠ .key ∧ c.aoh ≠ .deep
+
+instance (c : Cfg) : Decidable (NoKeySync c) := by unfold NoKeySync; exact inferInstance
+
+/-- how many elements of `xs` equal `z` -/
+def cnt (z : Node) (xs : List Node) : Nat := xs.countP (fun x => eqv z x)
+
+/-- the same number of elements of every `==`-class -/
+def Balanced (xs ys : List Node) : Prop := ∀ z, wf z = true → cnt z xs = cnt z ys
+
 end Ypv.Diff
